@@ -25,4 +25,19 @@ CHECKS = {
                  "filtered).",
          "note": DP_NOTE, "technique": "TLA+ model checking (TLC) + TLC trace validation of real-engine traces"},
 }
+CHECKS["C02"] = {
+ "text": "TLC model-checks the persister/ack-delivery mechanism spec SourcePersist.tla exhaustively (2 connectors sharing "
+         "one persister, store fault at every step, send failures, teardown anywhere; plus liveness under a responsive "
+         "store, plus refutation of the two pre-fix behaviours). Real v1/v2 engines run with an eager and with a lazy "
+         "persister whose timer fires, held/failed commits and sets, begin failures, transient ack-send failures and "
+         "stop instants are scripted; TLC validates every trace with AckAfterDurable / StoreMonotone / "
+         "HandledBeforeStored evaluated at every ack and every durable change.",
+ "note": DP_NOTE, "technique": "TLA+ model checking (TLC) of the mechanism + TLC trace validation of real-engine traces"}
+CHECKS["C03"] = {
+ "text": "Every event of every validated real-engine trace is treated as a crash instant: TLC evaluates "
+         "HandledBeforeStored and AckAfterDurable after each event; every distinct durable snapshot of the crash family "
+         "is really restarted (fresh services on a copy of the snapshot, runtime Init order) and OpenAtStored plus all "
+         "data-path invariants are checked on the resumed run; pruning and non-pruning upstreams.",
+ "note": DP_NOTE + " No real SIGKILL/Badger: logical crash points only.",
+ "technique": "TLC trace validation at every prefix + restart replay on store snapshots"}
 NOT_APPLICABLE = {}
